@@ -158,7 +158,7 @@ def where(sequence: ArrayT, attr: object, value: object = None) -> list[object]:
     if value is not None and not is_undefined(value):
         return [itm for itm in sequence if _getitem(itm, attr) == value]
 
-    return [itm for itm in sequence if _getitem(itm, attr) not in (False, None)]
+    return [itm for itm in sequence if _is_truthy(_getitem(itm, attr))]
 
 
 @sequence_filter
@@ -170,7 +170,7 @@ def reject(sequence: ArrayT, attr: object, value: object = None) -> list[object]
     if value is not None and not is_undefined(value):
         return [itm for itm in sequence if _getitem(itm, attr) != value]
 
-    return [itm for itm in sequence if _getitem(itm, attr) in (False, None)]
+    return [itm for itm in sequence if not _is_truthy(_getitem(itm, attr))]
 
 
 @sequence_filter
@@ -179,9 +179,7 @@ def find(sequence: ArrayT, attr: object, value: object = None) -> object:
     if value is not None and not is_undefined(value):
         return next((itm for itm in sequence if _getitem(itm, attr) == value), None)
 
-    return next(
-        (itm for itm in sequence if _getitem(itm, attr) not in (False, None)), None
-    )
+    return next((itm for itm in sequence if _is_truthy(_getitem(itm, attr))), None)
 
 
 @sequence_filter
@@ -198,7 +196,7 @@ def find_index(
         (
             i
             for i, itm in enumerate(sequence)
-            if _getitem(itm, attr) not in (False, None)
+            if _is_truthy(_getitem(itm, attr))
         ),
         None,
     )
@@ -210,7 +208,7 @@ def has(sequence: ArrayT, attr: object, value: object = None) -> bool:
     if value is not None and not is_undefined(value):
         return any((itm for itm in sequence if _getitem(itm, attr) == value))
 
-    return any((itm for itm in sequence if _getitem(itm, attr) not in (False, None)))
+    return any((itm for itm in sequence if _is_truthy(_getitem(itm, attr))))
 
 
 @sequence_filter
@@ -298,6 +296,11 @@ def _getitem(sequence: Any, key: object, default: object = None) -> Any:
         if not hasattr(sequence, "__getitem__"):
             raise
         return default
+
+
+def _is_truthy(obj: object) -> bool:
+    """Liquid truthiness: only `nil`, `false` and undefined are falsy (`0` is truthy)."""
+    return not (obj is None or obj is False or is_undefined(obj))
 
 
 def _lower(obj: Any) -> str:
